@@ -685,6 +685,17 @@ func (c *Context) onSupervise(supervisionContext *supervisionContext) {
 	// 记录该 Actor 接管本次故障的后续处理
 	c.Logger().Debug("supervision: takeover", log.String("id", supervisionContext.ID()), log.String("supervisor_path", c.ref.GetPath()))
 	supervise(c, supervisionContext)
+
+	// 自身已处于终止（或重启）流程中：所有子 Actor 均已被要求终止，不再咨询监管策略。
+	// 故障的子 Actor 邮箱处于挂起状态，若此前收到的是作为用户消息的毒杀指令，它将永远无法处理该指令，
+	// 自身也就永远等不到它的终止；因此立即（以系统消息）终止故障的子 Actor，使终止流程得以闭环
+	if atomic.LoadInt32(&c.state) != running {
+		for _, child := range supervisionContext.Child() {
+			c.Kill(child, false, "supervisor is terminating")
+		}
+		return
+	}
+
 	var (
 		targets  vivid.ActorRefs
 		decision vivid.SupervisionDecision
